@@ -45,6 +45,7 @@ _SLIM_DROP = ("trace", "traceback", "detail")
 # violations have been seen; workers then skip their remaining indices so that a
 # badly broken tree cannot turn a batch into (runs x watchdog) seconds.
 ABORT = mp.get_context("fork").Value("i", 0)
+HANGS = mp.get_context("fork").Value("i", 0)
 MAX_VIOLATIONS = 200
 MEM_LIMIT = int(os.environ.get("VERIF_MEM_LIMIT_MB", "3072")) << 20
 
@@ -66,8 +67,13 @@ def _work(prop_id, root_seed, tier, indices, n_samples):
         out = run_one(module, R, watchdog=getattr(module, "WATCHDOG", 60.0))
         if out["status"] != "ok" or i < n_samples:
             out["R"] = R
-        if out["status"] == "violation" and out.get("oracle") in ("hang", "crash:MemoryError"):
+        if out["status"] == "violation" and out.get("oracle") == "crash:MemoryError":
             ABORT.value = 1
+        if out["status"] == "violation" and out.get("oracle") == "hang":
+            with HANGS.get_lock():
+                HANGS.value += 1
+                if HANGS.value >= 3:  # one slow run is not a reason to give up the batch
+                    ABORT.value = 1
         res.append(out)
     return res
 
@@ -81,6 +87,7 @@ def run_batch(module, root_seed, tier, n_runs=None, budget_s=None, chunk=None):
     t0 = _realtime.time()
     outs = []
     ABORT.value = 0
+    HANGS.value = 0
     chunk = chunk or getattr(module, "CHUNK", 25)
     n_samples = 3
     with _pool() as pool:
